@@ -88,28 +88,24 @@ Proof.
   intros hsz msz ts al F. destruct (sound_safe _ _ _ ledger0 (ctor_sound hsz msz ts 1 al) Inv0) as [S I]. split; auto.
   destruct (ctor_is_atomic hsz msz ts 1 al F) as [E _]. rewrite E in I. apply Inv_nil_empty; auto.
 Qed.
-Theorem C15_qvector_failed_leaves_nothing : forall Sz max osz ts pol al, out (script_qvector Sz max osz ts pol 1 al) = Failed ->
+Lemma qvector_failed_leaves_nothing_thm : forall Sz max osz ts pol al, out (script_qvector Sz max osz ts pol 1 al) = Failed ->
   safe ledger0 (evs (script_qvector Sz max osz ts pol 1 al)) /\ forall b, own (run ledger0 (evs (script_qvector Sz max osz ts pol 1 al))) b = false.
 Proof.
   intros Sz max osz ts pol al F. destruct (sound_safe _ _ _ ledger0 (qvector_sound Sz max osz ts pol 1 al) Inv0) as [S I]. split; auto.
   destruct (qvector_is_atomic Sz max osz ts pol 1 al F) as [E _]. rewrite E in I. apply Inv_nil_empty; auto.
 Qed.
-Theorem C15_qhashtbl_failed_leaves_nothing : forall Sz range ts al, out (script_qhashtbl Sz range ts 1 al) = Failed ->
+Lemma qhashtbl_failed_leaves_nothing_thm : forall Sz range ts al, out (script_qhashtbl Sz range ts 1 al) = Failed ->
   safe ledger0 (evs (script_qhashtbl Sz range ts 1 al)) /\ forall b, own (run ledger0 (evs (script_qhashtbl Sz range ts 1 al))) b = false.
 Proof.
   intros Sz range ts al F. destruct (sound_safe _ _ _ ledger0 (qhashtbl_sound Sz range ts 1 al) Inv0) as [S I]. split; auto.
   destruct (qhashtbl_is_atomic Sz range ts 1 al F) as [E _]. rewrite E in I. apply Inv_nil_empty; auto.
 Qed.
-Theorem C15_wrapper_failed_leaves_nothing : forall osz Sz ts al, out (script_wrapper osz Sz ts 1 al) = Failed ->
+Lemma wrapper_failed_leaves_nothing_thm : forall osz Sz ts al, out (script_wrapper osz Sz ts 1 al) = Failed ->
   safe ledger0 (evs (script_wrapper osz Sz ts 1 al)) /\ forall b, own (run ledger0 (evs (script_wrapper osz Sz ts 1 al))) b = false.
 Proof.
   intros osz Sz ts al F. destruct (sound_safe _ _ _ ledger0 (wrapper_sound osz Sz ts 1 al) Inv0) as [S I]. split; auto.
   destruct (wrapper_is_atomic osz Sz ts 1 al F) as [E _]. rewrite E in I. apply Inv_nil_empty; auto.
 Qed.
-
-(* --- a call that completes normally did exactly what the fault-free run does (same events, same result, same summary) --- *)
-Theorem C15_tree_ok : forall Sz g o k al, out (tree_step Sz g o k al) = Done -> tree_step Sz g o k al = tree_step Sz g o k allok.
-Proof. exact tree_step_ok. Qed.
 
 (* a concrete run used by the non-vacuity examples: sizes as on x86-64 *)
 Definition sz64 : sizes := mkS 200 72 56 152 40 8 224 48 24 240 32 256 136 136 88 128.
